@@ -112,12 +112,45 @@ def lexer_methods(lm):
     return lm.module.class_methods('Lexer')
 
 
-def mk_lexer_obj(prev=None, cur=None, stack=None):
-    return Obj('Lexer', prev_token=prev, cur_token=cur,
-               valid_prev_token=None, cur_token_real=None,
-               next_tokens=[], token_stack=stack if stack is not None
-               else [[None, []]], hidden_tokens=[], with_comments=False,
-               yield_comments=False)
+_LEXER_FIELDS = {}
+
+
+def lexer_initial_fields(lm):
+    """the attributes a fresh Lexer has, obtained by evaluating
+    Lexer.__init__ from its source (ply's lexer is not built)"""
+    key = id(lm.module)
+    if key not in _LEXER_FIELDS:
+        methods = lexer_methods(lm)
+        init = methods.get('__init__')
+        if init is None:
+            raise AnalysisError('Lexer.__init__ vanished')
+        o = Obj('Lexer', build=('pyfunc', lambda **kw: None))
+        ev = Evaluator(lm.module, 'Lexer', methods, {})
+        ev.call(init, [], self_obj=o)
+        fields = dict(o.__dict__['_fields'])
+        fields.pop('build', None)
+        fields.pop('token', None)
+        _LEXER_FIELDS[key] = fields
+    import copy
+    out = {}
+    for k, v in _LEXER_FIELDS[key].items():
+        out[k] = copy.deepcopy(v) if isinstance(v, (list, dict, set)) \
+            else v
+    return out
+
+
+def mk_lexer_obj(prev=None, cur=None, stack=None, lm=None):
+    fields = dict(prev_token=None, cur_token=None, valid_prev_token=None,
+                  cur_token_real=None, next_tokens=[],
+                  token_stack=[[None, []]], hidden_tokens=[],
+                  with_comments=False, yield_comments=False)
+    if lm is not None:
+        fields.update(lexer_initial_fields(lm))
+    fields['prev_token'] = prev
+    fields['cur_token'] = cur
+    if stack is not None:
+        fields['token_stack'] = stack
+    return Obj('Lexer', **fields)
 
 
 def tok(type_, value=None):
@@ -145,8 +178,19 @@ def r042(report, lm, pm, rid='R04.2'):
             # (depth > 1: inside the header of if/for/while)
             stack = [[None, []]] + [[tok('LPAREN'), []]
                                     for _ in range(depth - 1)]
-            lexer = mk_lexer_obj(prev=tok(ptype) if ptype else None,
-                                 stack=stack)
+            # the state is reached through the lexer's own transition
+            # function: <a> [<previous raw token>] <offending token>
+            lexer = mk_lexer_obj(stack=stack, lm=lm)
+            feed_ = []
+            if ptype is not None:
+                if ptype != 'ID':
+                    feed_.append(tok('ID', 'a'))
+                feed_.append(tok(ptype, '\n' if ptype == 'LINE_TERMINATOR'
+                                 else ('/*c*/' if ptype == 'BLOCK_COMMENT'
+                                       else 'a')))
+            feed_.append(token)
+            for t_ in feed_:
+                ev.call(methods['_set_tokens'], [t_], self_obj=lexer)
             try:
                 ret, _ = ev.call(methods['auto_semi'], [token],
                                  self_obj=lexer)
@@ -226,7 +270,7 @@ def r043(report, g, lm):
     for ptype in g.tokens:
         for ntype in ('LINE_TERMINATOR',) + others:
             ev = Evaluator(lm.module, 'Lexer', methods, functions)
-            lexer = mk_lexer_obj(prev=None, cur=tok(ptype))
+            lexer = mk_lexer_obj(prev=None, cur=tok(ptype), lm=lm)
             new = tok(ntype)
             lexer.get_lexer_token = ('pyfunc', lambda new=new: new)
             try:
@@ -269,7 +313,8 @@ def r043(report, g, lm):
     for ptype in sorted(RESTRICTED_PREFIX) + ['ID', 'RPAREN', 'RBRACE']:
         for ctx, mk in sorted(stacks.items()):
             ev = Evaluator(lm.module, 'Lexer', methods, functions)
-            lexer = mk_lexer_obj(prev=None, cur=tok(ptype), stack=mk())
+            lexer = mk_lexer_obj(prev=None, cur=tok(ptype), stack=mk(),
+                                 lm=lm)
             new = tok('LINE_TERMINATOR')
             lexer.get_lexer_token = ('pyfunc', lambda new=new: new)
             try:
@@ -345,7 +390,7 @@ def r044(report, lm, maxrun=3):
                    for i, k in enumerate(run)):
                 continue
             ev = Evaluator(lm.module, 'Lexer', methods, {})
-            lexer = mk_lexer_obj()
+            lexer = mk_lexer_obj(lm=lm)
             seq = [tok('ID', 'a')] + [tok(*kinds[k]) for k in run] + \
                 [tok('ID', 'b')]
             for t in seq:
